@@ -14,7 +14,7 @@ PROPS = {
     "C01": ["StoreReadable", "ChainValid", "LookupsAgree"],
     "C02": ["StoreChangedWithoutHeaders", "AdoptedNotFromBatch", "ReorgBelowCheckpoint", "ReorgNotHeavier",
             "IllegalTruncation", "WorkDecreased", "ExtensionAdoptedInFull", "HeavierBranchAdoptedInFull",
-            "HandlerPanicked"],
+            "HandlerPanicked", "HandlerHung"],
     "C19": ["DisconnectEvents", "ConnectEvents", "EventOrder", "BacklogExact", "BacklogAtEvent"],
     # multi-store crash points (used by the C08 check of the HeaderStore family)
     "C08": ["CrashRecoverOpens", "CrashChainIntact", "CrashFilterConsistent"],
@@ -143,7 +143,7 @@ def run_one(prop_id, cfg, rng, sc, replay=None):
         tr = d["trace"]
         steps = [{"act": x["act"], "obs": x["obs"], "viol": []} for x in tr["steps"] if not x.get("note")]
         open(pf, "w").write(json.dumps({"id": 0, "init_obs": tr.get("init_obs"), "init": d.get("init"),
-                                        "steps": steps}) + "\n")
+                                        "steps": steps, "list_cap": tr.get("list_cap", 0)}) + "\n")
         tlc, g, paths, unreach = family._NoTLC(), None, [0], 0
     else:
         tlc = core.run_tlc([SPEC, udir], "BlockManager", consts, workers=1, invariants=["TypeOK"],
@@ -156,6 +156,9 @@ def run_one(prop_id, cfg, rng, sc, replay=None):
     observed, log = family.run_driver(binary, "TestVerifBlockManagerReplay", pf,
                                       os.path.join(sc, "obs.ndjson"), sc, timeout=7200,
                                       env_extra={"VERIF_UNIVERSE": uf})
+    # paths the driver skipped (after repeated hung steps) carry no observation at all
+    skipped = [t for t in observed if t.get("error") and not t.get("steps")]
+    observed = [t for t in observed if not (t.get("error") and not t.get("steps"))]
     verdict = family.judge([SPEC, udir], "BlockManagerProps", PROPS[prop_id], prop_id, observed, label=label)
     dr = family.drift(pf, observed, label=label)
     inits = {}
@@ -163,7 +166,7 @@ def run_one(prop_id, cfg, rng, sc, replay=None):
         d = json.loads(line)
         inits[d["id"]] = d.get("init")
     return dict(uname=uname, uni=uni, consts=consts, tlc=tlc, g=g, paths=paths, unreach=unreach,
-                observed=observed, verdict=verdict, drift=dr, inits=inits)
+                observed=observed, verdict=verdict, drift=dr, inits=inits, skipped=skipped)
 
 
 def run(prop_id, tier, seed, replay=None):
@@ -202,7 +205,7 @@ def run(prop_id, tier, seed, replay=None):
                     ",".join(v["props"]), v["step"], r["uname"],
                     (r["inits"].get(v["trace"]) or {}).get("bfile"), " ".join(v["labels"])))
                 rc = 1
-            errs = [t for t in r["observed"] if t.get("error")]
+            errs = [t for t in r["observed"] if t.get("error")] + r["skipped"]
             if errs:
                 print("MACHINERY: %d paths ended in a driver error, e.g. %s" % (len(errs), errs[0]["error"][:600]),
                       file=sys.stderr)
@@ -231,6 +234,10 @@ def run(prop_id, tier, seed, replay=None):
                       "samples": [x for r in runs for x in r["drift"][2]][:5]},
             "known_findings_seen": {k: v["count"] for k, v in known.items()},
             "new_violations": nviol,
+            "paths_by_header_list_capacity": {
+                k: sum(1 for r in runs for t in r["observed"]
+                       if (t.get("list_cap", 0) - r["uni"]["max_batch_len"] if t.get("list_cap", 0) else 0) == d)
+                for k, d in (("code default (10000)", 0), ("longest message + 1", 1), ("longest message + 2", 2))},
             "configs": [{"universe": r["uname"], "constants": r["consts"], "tlc_states": r["tlc"].distinct,
                          "tlc_generated": r["tlc"].generated, "tlc_wall_s": round(r["tlc"].wall, 1),
                          "edges": len(r["g"].edges) if r["g"] else 0, "paths": len(r["paths"]),
